@@ -495,6 +495,107 @@ fn main() {
         lit!(statsd_distribution, distribution_with_tags, "lit}}{{", 6u64);
         lit!(statsd_set, set_with_tags, "lit.{{", 7i64);
     }
+    // tag keys and values written as expressions of OTHER types that coerce to &str where `with_tag` wants one
+    // (&String, &Box<str>, &Rc<str>, &Cow<str>, a user type that derefs to str and displays as something else): the
+    // tagged call sees the coerced str, and so does the macro
+    if !unset {
+        struct Region {
+            code: String,
+            name: &'static str,
+        }
+        impl std::ops::Deref for Region {
+            type Target = str;
+            fn deref(&self) -> &str {
+                &self.code
+            }
+        }
+        impl std::fmt::Display for Region {
+            fn fmt(&self, f: &mut std::fmt::Formatter<'_>) -> std::fmt::Result {
+                write!(f, "{} ({})", self.code, self.name)
+            }
+        }
+        let region = Region { code: "eu-west-1".into(), name: "Ireland" };
+        let owned: String = "owned-value".into();
+        let boxed: Box<str> = "boxed-value".into();
+        let rc: std::rc::Rc<str> = "rc-value".into();
+        let cow: std::borrow::Cow<'static, str> = std::borrow::Cow::Owned("cow-value".into());
+        let b0 = cx.sink.emit_count();
+        let rm = panics::guard(|| {
+            statsd_count!("coerce.a", 1i64, "region" => &region, &owned => &owned);
+            statsd_gauge!("coerce.b", 2u64, &boxed => &boxed, "rc" => &rc, "cow" => &cow);
+            statsd_time!(&owned, 3u64, &region => &cow);
+        });
+        let m: Vec<String> = cx.sink.emits_from(b0).iter().map(|e| e.0.clone()).collect();
+        cx.sink.log.lock().unwrap().script.clear();
+        let b1 = cx.sink.emit_count();
+        let rc2 = panics::guard(|| {
+            let c = get_global_default().unwrap();
+            c.count_with_tags("coerce.a", 1i64).with_tag("region", &region).with_tag(&owned, &owned).send();
+            c.gauge_with_tags("coerce.b", 2u64).with_tag(&boxed, &boxed).with_tag("rc", &rc).with_tag("cow", &cow).send();
+            c.time_with_tags(&owned, 3u64).with_tag(&region, &cow).send();
+        });
+        let c: Vec<String> = cx.sink.emits_from(b1).iter().map(|e| e.0.clone()).collect();
+        cx.sink.log.lock().unwrap().script.clear();
+        cx.rep.obs("macros_with_arguments_of_types_that_coerce_to_str", 3);
+        if rm.is_ok() != rc2.is_ok() || m != c {
+            let at = m.iter().zip(c.iter()).position(|(a, b)| a != b).unwrap_or(0);
+            cx.violation("same-as-explicit-chain", "line-differs-from-chain", format!("arguments of types that coerce to &str: the macros sent {:?}, the explicit chains sent {:?}", m.get(at).map(|x| clip(x, 160)), c.get(at).map(|x| clip(x, 160))), Json::Null);
+        }
+    }
+    // a later set_global_default is ignored; the client it was given is destroyed, and a destructor on the way (a sink
+    // that counts its own closing) may use the macros like any other code: they go to the winning client, and nothing hangs
+    if !unset {
+        use std::sync::atomic::{AtomicBool, Ordering as O};
+        struct ClosingSink;
+        impl cadence::MetricSink for ClosingSink {
+            fn emit(&self, m: &str) -> std::io::Result<usize> {
+                Ok(m.len())
+            }
+        }
+        impl Drop for ClosingSink {
+            fn drop(&mut self) {
+                statsd_count!("sink.closed", 1i64, "which" => "turned-down");
+            }
+        }
+        let b0 = cx.sink.emit_count();
+        let fin = std::sync::Arc::new(AtomicBool::new(false));
+        let fin2 = fin.clone();
+        // (the calling thread registers with the process monitor, the new one does not: it is watched like a thread of the library)
+        let _me = cvh::procmon::Registration::new();
+        let j = std::thread::spawn(move || {
+            let r = panics::guard(|| set_global_default(cadence::StatsdClient::from_sink("second", ClosingSink)));
+            fin2.store(true, O::SeqCst);
+            r.is_ok()
+        });
+        let verdict = cvh::procmon::watch(|| fin.load(O::SeqCst), 40, std::time::Duration::from_millis(400), std::time::Duration::from_secs(30));
+        cx.rep.obs("later_sets_whose_rejected_client_uses_the_macros_while_dying", 1);
+        match verdict {
+            None => {
+                let ok = j.join().unwrap_or(false);
+                let m: Vec<String> = cx.sink.emits_from(b0).iter().map(|e| e.0.clone()).collect();
+                cx.sink.log.lock().unwrap().script.clear();
+                let b1 = cx.sink.emit_count();
+                let _ = panics::guard(|| get_global_default().unwrap().count_with_tags("sink.closed", 1i64).with_tag("which", "turned-down").send());
+                let c: Vec<String> = cx.sink.emits_from(b1).iter().map(|e| e.0.clone()).collect();
+                cx.sink.log.lock().unwrap().script.clear();
+                if !ok {
+                    cx.violation("panic-iff-unset", "panic-with-client-set", "a later set_global_default whose rejected client uses a macro in a destructor panicked although a global client is set".to_string(), Json::Null);
+                } else if m != c {
+                    cx.violation("same-as-explicit-chain", "line-differs-from-chain", format!("a macro used while the client of an ignored set_global_default was destroyed sent {:?}; the explicit chain on the global client sent {:?}", m, c), Json::Null);
+                }
+            }
+            Some(cvh::procmon::Quiescence::ParkedForGood { samples, span_ms, .. }) => {
+                cx.violation("same-as-explicit-chain", "macro-never-returns", format!("a later set_global_default whose rejected client uses a macro in a destructor never returned: its thread is asleep with unchanged context-switch counters over {} samples / {} ms (the explicit chain on the global client returns at once)", samples, span_ms), Json::Null);
+                std::mem::forget(j);
+                // whatever that thread holds, it holds for good: no further macro can be judged in this process
+                std::process::exit(cx.rep.finish(args.get("out")));
+            }
+            Some(other) => {
+                cx.rep.inconclusive(format!("later set with a macro-using destructor: {:?}", other));
+                std::mem::forget(j);
+            }
+        }
+    }
     // temporaries of an argument expression (a lock guard, say) are gone before the metric is sent, as in the explicit
     // sequence `let b = client.count_with_tags(key, value); b.send()`: while the sink runs, the calling thread holds
     // nothing the argument took
